@@ -98,6 +98,7 @@ pub fn subst_goal(g: &Goal, map: &[(VarId, Term)]) -> Goal {
         Goal::NonRel(NonRel::SqEq(a, b)) => Goal::NonRel(NonRel::SqEq(st(a), st(b))),
         Goal::NonRel(NonRel::AddConst(a, k, b)) => Goal::NonRel(NonRel::AddConst(st(a), *k, st(b))),
         Goal::NonRel(NonRel::IsGroundInt(a)) => Goal::NonRel(NonRel::IsGroundInt(st(a))),
+        Goal::NonRel(NonRel::IsGroundTerm(a)) => Goal::NonRel(NonRel::IsGroundTerm(st(a))),
         Goal::For(x, coll, body) => Goal::For(*x, coll.iter().map(st).collect(), sg(body)),
         Goal::Match(k, t, arms) => Goal::Match(
             *k,
@@ -305,19 +306,29 @@ impl Interp {
                 let body: Vec<Goal> = body.iter().map(|g| subst_goal(g, &map)).collect();
                 self.conj(&body, st)
             }
+            // Non-relational goals look at the term they hold, as it is, without consulting the
+            // substitution: inside `project` the projected variables have been replaced by
+            // their walked values, anything else is still a variable.
             Goal::NonRel(n) => match n {
-                NonRel::SqEq(x, q) => match st.s.apply(x) {
+                NonRel::SqEq(x, q) => match x {
                     Term::Int(n) => self.eval(&Goal::Eq(q.clone(), Term::Int(n * n)), st),
                     _ => Ok(vec![]),
                 },
-                NonRel::AddConst(x, k, q) => match st.s.apply(x) {
+                NonRel::AddConst(x, k, q) => match x {
                     Term::Int(n) => self.eval(&Goal::Eq(q.clone(), Term::Int(n + k)), st),
                     _ => Ok(vec![]),
                 },
-                NonRel::IsGroundInt(x) => match st.s.apply(x) {
+                NonRel::IsGroundInt(x) => match x {
                     Term::Int(_) => Ok(vec![st]),
                     _ => Ok(vec![]),
                 },
+                NonRel::IsGroundTerm(x) => {
+                    if x.is_ground() {
+                        Ok(vec![st])
+                    } else {
+                        Ok(vec![])
+                    }
+                }
             },
             Goal::For(x, coll, body) => {
                 let mut gs = vec![];
